@@ -74,6 +74,8 @@ type smCase struct {
 	failed    map[string]bool
 	profile   int
 	raceTaken [2]int
+	pending   [][2]string
+	deleted   map[int64]bool // streams whose completion DeleteStream accepted (current map generation)
 }
 
 const (
@@ -110,7 +112,16 @@ func (c *smCase) monfail(key, desc string) {
 		return
 	}
 	c.failed[key] = true
-	fmt.Fprintf(c.w, "MONFAIL\tstreamsmap/%s\t%s\tclient=%v maxBidi=%d maxUni=%d ops=%s\n", key, desc, c.client, c.maxIn[0], c.maxIn[1], strings.Join(c.desc, " "))
+	c.pending = append(c.pending, [2]string{key, desc})
+}
+
+// flush prints the monitor failures of the step just executed, with the history up to and
+// including that step as the concrete failing input.
+func (c *smCase) flush() {
+	for _, p := range c.pending {
+		fmt.Fprintf(c.w, "MONFAIL\tstreamsmap/%s\t%s\tclient=%v maxBidi=%d maxUni=%d ops=%s\n", p[0], p[1], c.client, c.maxIn[0], c.maxIn[1], strings.Join(c.desc, " "))
+	}
+	c.pending = nil
 }
 
 func smRes(id int64, err int, unit bool) string {
@@ -375,7 +386,15 @@ func (c *smCase) tryRace() bool {
 	c.nextW += 2
 	n := c.peerMax[t] + r.Pick(1, 1, 2)
 	f0, c0 := v.NumFrames(), v.NumCreated()
-	var fA, fB, fM int
+	var fA, fB, fM, fO int
+	tryOpen := r.Intn(3) == 0
+	trySync := !tryOpen && r.Intn(2) == 0
+	var openID int64
+	var openErr int
+	cc := &smCaller{uni: uni, gen: c.gen, w: c.nextW}
+	c.nextW++
+	cctx, ccancel := context.WithCancel(context.Background())
+	cc.cancel = ccancel
 	closed := make(chan struct{})
 	close(closed)
 	bctx, bcancel := context.WithCancel(context.Background())
@@ -385,9 +404,23 @@ func (c *smCase) tryRace() bool {
 		fA = v.NumFrames()
 		c.spawn(b, bctx)
 		synctest.Wait()
+		if q := v.SnapOut(uni).Queue; len(q) > 0 {
+			b.ch = q[len(q)-1]
+		}
 		fB = v.NumFrames()
 		v.MaxStreams(uni, n)
 		fM = v.NumFrames()
+		if tryOpen { // a non-blocking OpenStream must not overtake the waiting callers
+			openID, openErr = v.Open(uni)
+		}
+		if trySync { // a new OpenStreamSync must queue up behind the waiting callers
+			c.spawn(cc, cctx)
+			synctest.Wait()
+			if q := v.SnapOut(uni).Queue; len(q) > 0 && !cc.finished.Load() {
+				cc.ch = q[len(q)-1]
+			}
+		}
+		fO = v.NumFrames()
 		return closed
 	}
 	doneCh := make(chan struct{})
@@ -425,13 +458,23 @@ func (c *smCase) tryRace() bool {
 	// unfinished now or finished with a stream created after A's
 	c.step(opB, "RParked", all[fA-f0:fB-f0], fmt.Sprintf("opensync(%v,w%d,false)", uni, b.w))
 	c.waiters = append(c.waiters, b)
-	if q := v.SnapOut(uni).Queue; len(q) > 0 && !b.finished.Load() {
-		b.ch = q[len(q)-1]
-	}
 	if n > c.peerMax[t] {
 		c.peerMax[t] = n
 	}
 	c.step(u.App("OMaxStreams", u.B(uni), u.Z(n)), "RUnit", all[fB-f0:fM-f0], fmt.Sprintf("maxstreams(%v,%d)", uni, n))
+	if tryOpen {
+		if openErr == 0 {
+			c.monfail("fifo/overtaken-by-open", fmt.Sprintf("OpenStream returned stream %d while OpenStreamSync callers are waiting", openID))
+			c.monOpened(uni, openID, "OpenStream")
+		}
+		c.step(u.App("OOpen", u.B(uni)), smRes(openID, openErr, false), all[fM-f0:fO-f0], fmt.Sprintf("open(%v)", uni))
+	}
+	if trySync {
+		opC := u.App("OSyncCall", u.B(uni), u.Z(cc.w), "false")
+		// C finished inside the hook only if it did not queue up
+		c.step(opC, "RParked", all[fM-f0:fO-f0], fmt.Sprintf("opensync(%v,w%d,false)", uni, cc.w))
+		c.waiters = append(c.waiters, cc)
+	}
 	// A's own step comes first: its critical section precedes every wake-up it caused
 	for i, y := range c.waiters {
 		if y == a {
@@ -442,10 +485,10 @@ func (c *smCase) tryRace() bool {
 	c.nwakes++
 	if a.err == 0 {
 		c.monOpened(uni, a.id, fmt.Sprintf("OpenStreamSync(waiter %d)", a.w))
-		c.step(u.App("OSyncWake", u.B(uni), u.Z(a.w)), smRes(a.id, a.err, false), all[fM-f0:], fmt.Sprintf("wake(w%d)", a.w))
+		c.step(u.App("OSyncWake", u.B(uni), u.Z(a.w)), smRes(a.id, a.err, false), all[fO-f0:], fmt.Sprintf("wake(w%d)", a.w))
 		c.raceTaken[0]++
 	} else {
-		c.step(u.App("OSyncCancel", u.B(uni), u.Z(a.w)), smRes(a.id, a.err, false), all[fM-f0:], fmt.Sprintf("cancel-with-token(w%d)", a.w))
+		c.step(u.App("OSyncCancel", u.B(uni), u.Z(a.w)), smRes(a.id, a.err, false), all[fO-f0:], fmt.Sprintf("cancel-with-token(w%d)", a.w))
 		c.raceTaken[1]++
 	}
 	c.collect(v.NumFrames(), c0)
@@ -629,6 +672,9 @@ func (c *smCase) doOp() {
 		}
 		var e int
 		fr, fe, cf := c.ext(func() { e = v.Delete(id) })
+		if e == 0 {
+			c.deleted[id] = true
+		}
 		c.step(u.App("ODelete", u.Z(id)), smRes(-1, e, true), fr, fmt.Sprintf("delete(%d)", id))
 		c.collect(fe, cf)
 	case k < 60: // AcceptStream
@@ -788,6 +834,7 @@ func (c *smCase) doOp() {
 			c.openedOut = [2]int64{}
 			c.accepted = [2]int64{}
 			c.blockedAt = [2]map[int64]bool{{}, {}}
+			c.deleted = map[int64]bool{}
 			c.step("OReset", "RUnit", fr, "reset")
 			c.collect(fe, cf)
 		case !c.closed:
@@ -838,6 +885,9 @@ func (c *smCase) monFrameDispatch(id, got int64, e int, recv bool) {
 	if e != 0 && e != smErrLimit {
 		c.monfail("dispatch/unexpected-error", fmt.Sprintf("%s-side frame for stream %d: error class %d", kind, id, e))
 	}
+	if e == 0 && got >= 0 && c.deleted[id] {
+		c.monfail("dispatch/deleted-not-ignored", fmt.Sprintf("%s-side frame for completed stream %d was dispatched to a stream instead of being ignored", kind, id))
+	}
 	if e == 0 && got >= 0 && got != id {
 		c.monfail("dispatch/wrong-stream", fmt.Sprintf("%s-side frame for stream %d was dispatched to stream %d", kind, id, got))
 	}
@@ -866,7 +916,7 @@ func (c *smCase) snapOut(s quic.VerifSMOut) string {
 }
 
 func runSMCase(w *bufio.Writer, r *u.Rng, dist map[string]int) {
-	c := &smCase{w: w, r: r, failed: map[string]bool{}}
+	c := &smCase{w: w, r: r, failed: map[string]bool{}, deleted: map[int64]bool{}}
 	c.client = r.Bool()
 	lim := func() int64 {
 		if r.Chance(1, 30) {
@@ -894,6 +944,7 @@ func runSMCase(w *bufio.Writer, r *u.Rng, dist map[string]int) {
 			if p := recover(); p != nil {
 				c.monfail("panic", fmt.Sprintf("panic: %v", p))
 			}
+			c.flush()
 		}()
 		c.v = quic.NewVerifSM(c.client, uint64(c.maxIn[0]), uint64(c.maxIn[1]))
 		if r.Chance(2, 3) { // most connections learn the peer's limits before anything else
@@ -903,9 +954,11 @@ func runSMCase(w *bufio.Writer, r *u.Rng, dist map[string]int) {
 			c.step(u.App("OTransportParams", u.Z(nb), u.Z(nu)), "RUnit", fr, fmt.Sprintf("tparams(%d,%d)", nb, nu))
 			c.collect(fe, cf)
 		}
+		c.flush()
 		for i := 0; i < nops && len(c.failed) == 0; i++ {
 			c.doOp()
 			c.monState()
+			c.flush()
 		}
 		final := u.App("SMCase", u.B(c.client), u.Z(c.maxIn[0]), u.Z(c.maxIn[1]), u.List(c.steps),
 			smSnapIn(c.v.SnapIn(false)), smSnapIn(c.v.SnapIn(true)), c.snapOut(c.v.SnapOut(false)), c.snapOut(c.v.SnapOut(true)), u.B(c.v.IsReset()))
